@@ -54,6 +54,12 @@
 #include <orc/orcutils.h>
 
 #include "orcinternal.h"
+#ifdef ORC_VERIF_HOOKS
+#include <orc/orcverif.h>
+
+OrcVerifCpuidHook orc_verif_cpuid_hook = 0;
+OrcVerifXgetbvHook orc_verif_xgetbv_hook = 0;
+#endif
 
 int orc_x86_sse_flags;
 int orc_x86_mmx_flags;
@@ -96,6 +102,10 @@ static void
 get_cpuid_ecx (orc_uint32 op, orc_uint32 init_ecx, orc_uint32 *a, orc_uint32 *b,
     orc_uint32 *c, orc_uint32 *d)
 {
+#ifdef ORC_VERIF_HOOKS
+  if (orc_verif_cpuid_hook && orc_verif_cpuid_hook (op, init_ecx, a, b, c, d))
+    return;
+#endif
   *a = op;
   *c = init_ecx;
 #if defined(HAVE_I386)
@@ -330,6 +340,17 @@ static orc_bool check_xcr0_ymm()
   return ((xcr0 & XSAVE_SUPPORT_AVX) == XSAVE_SUPPORT_AVX);
 }
 #else
+#ifdef ORC_VERIF_HOOKS
+static unsigned long long ORC_TARGET_XSAVE
+orc_verif_xgetbv (unsigned int index)
+{
+  orc_uint32 verif_xcr0;
+  if (orc_verif_xgetbv_hook && orc_verif_xgetbv_hook (&verif_xcr0))
+    return verif_xcr0;
+  return _xgetbv (index);
+}
+#define _xgetbv(index) orc_verif_xgetbv (index)
+#endif
 static orc_bool ORC_TARGET_XSAVE check_xcr0_ymm()
 {
   return (_xgetbv(0) & XSAVE_SUPPORT_AVX) == XSAVE_SUPPORT_AVX;
